@@ -48,23 +48,6 @@ theorem c08_h2_init_stream_recycled (e : SrvEnv) (h2r prev : ReqSt) (swin : Nat)
 
 /-! ## HTTP/1.x: keep-alive, pipelining, recycled connection objects -/
 
-/-- the connection after the request heads `P` have been handled one after the other -/
-def connAfter (site : Site) (e : SrvEnv) (c : Conn) : List Bytes → Conn
-  | [] => c
-  | head :: rest => connAfter site e (h1Msg site e c head).1 rest
-
-theorem connInv_after (site : Site) (e : SrvEnv) (P : List Bytes) :
-    ∀ c, ConnInv e c → ConnInv e (connAfter site e c P) := by
-  induction P with
-  | nil => intro c h; exact h
-  | cons head rest ih =>
-    intro c h
-    apply ih
-    by_cases ho : c.isOpen = true
-    · exact (h1Msg_answer site e c h ho head).2
-    · have : h1Msg site e c head = (c, none) := by simp [h1Msg, ho]
-      rw [this]; exact h
-
 /-- **The response is a function of the request (HTTP/1.x).**  After any history `P` of request
     heads on the connection — accepted or rejected, any methods, with or without announced
     bodies — if the connection is still open, the comparable part of the answer to the head `R`
